@@ -754,6 +754,22 @@ pub fn c10(tier: Tier, deep: bool) -> Vec<Scenario> {
         s.oracles = Oracles { stream: true, route: true, leak: true, ..Default::default() };
         out.push(s);
     }
+    // every frame of the answer carries a controls element that is present but empty (a0 00):
+    // legal, and the same items and result come through
+    for chain in [Some(Chain::Direct), Some(Chain::EntriesOnly), Some(Chain::Paged(2)), None] {
+        for res_ctrls in [false, true] {
+            let mut s = Scenario::new(&format!("C10/{:?}/empty-controls-element/res-ctrls={}", chain, res_ctrls));
+            s.clients = vec![match &chain {
+                Some(c) => ClientSpec { script: vec![start("s", c.clone())], free: 6 },
+                None => client(vec![Call::Search { marker: "s".into(), timeout: None }]),
+            }];
+            let paged = matches!(chain, Some(Chain::Paged(_)));
+            s.plans.insert("s".into(), Plan { items: if paged { vec![] } else { vec![E, R, E] }, total: if paged { 3 } else { 0 }, empty_ctrls: true, res_ctrls, ..Default::default() });
+            s.select_starts = vec![1];
+            s.oracles = Oracles { stream: true, route: true, leak: true, paged, ..Default::default() };
+            out.push(s);
+        }
+    }
     // start() called explicitly on a stream that has been started is a no-op in every state
     for chain in [Chain::Direct, Chain::EntriesOnly] {
         for at in 0..4usize {
@@ -893,6 +909,30 @@ pub fn c16(tier: Tier, deep: bool) -> Vec<Scenario> {
                 out.push(s);
             }
         }
+    }
+    // cookies whose length sits at a length-form boundary of the cookie itself, of the control
+    // value around it, of the control, of the controls element or of the whole follow-up request:
+    // the follow-up echoes them octet for octet
+    let mut lens: Vec<u32> = (100..=132).chain(236..=260).collect();
+    lens.extend([65520u32, 65535, 65536, 65537]);
+    if tier == Tier::Thorough {
+        lens = (1..=300).chain(65440..=65540).collect();
+    }
+    for (li, len) in lens.into_iter().enumerate() {
+        let chain = [Chain::Paged(1), Chain::EntriesPaged(1), Chain::PagedEntries(1)][li % 3].clone();
+        let mut s = Scenario::new(&format!("C16/cookie-of-{}-octets/{:?}", len, chain));
+        s.clients = vec![client(vec![
+            Call::Start { marker: "pg".into(), chain, timeout: None, ctrl: li % 2 == 1, opts: li % 4 == 2, own_paging: false },
+            Call::Next,
+            Call::Next,
+            Call::Next,
+            Call::Next,
+            Call::Finish,
+        ])];
+        s.plans.insert("pg".into(), Plan { total: 3, cookie: CookieStyle::Long(len), ..Default::default() });
+        s.select_starts = vec![1];
+        s.oracles = Oracles { paged: true, stream: true, route: true, leak: true, ..Default::default() };
+        out.push(s);
     }
     // every page (also the non-final ones) ends with a non-zero result code; size estimates beyond 31 bits
     for (rc, ck) in [(4u32, CookieStyle::Distinct), (11, CookieStyle::Constant), (0, CookieStyle::HugeEstimate), (4, CookieStyle::HugeEstimate)] {
@@ -1131,7 +1171,7 @@ pub fn c12(tier: Tier) -> Vec<Scenario> {
 pub fn c04(tier: Tier) -> Vec<Scenario> {
     let mut out = vec![];
     let o = Oracles { term: true, route: true, ..Default::default() };
-    let read_faults = vec![FaultKind::Eof, FaultKind::Reset, FaultKind::Garbage, FaultKind::ShortGarbage, FaultKind::BadResultTail];
+    let read_faults = vec![FaultKind::Eof, FaultKind::Reset, FaultKind::Garbage, FaultKind::ShortGarbage, FaultKind::InnerOverrun, FaultKind::BadResultTail];
     let write_faults = vec![FaultKind::WriteErr, FaultKind::WritePartial(3), FaultKind::WritePendingOnce];
     let mut all = read_faults.clone();
     all.extend(write_faults.clone());
@@ -1166,7 +1206,7 @@ pub fn c04(tier: Tier) -> Vec<Scenario> {
         client(vec![start("s", Chain::Direct), Call::Next, Call::Next, Call::Next, Call::Finish]),
     ];
     s.plans.insert("s".into(), plan_items(&[E, E]));
-    s.faults = if tier == Tier::Thorough { all.clone() } else { vec![FaultKind::Eof, FaultKind::Garbage, FaultKind::ShortGarbage, FaultKind::BadResultTail, FaultKind::WriteErr] };
+    s.faults = if tier == Tier::Thorough { all.clone() } else { vec![FaultKind::Eof, FaultKind::Garbage, FaultKind::ShortGarbage, FaultKind::InnerOverrun, FaultKind::BadResultTail, FaultKind::WriteErr] };
     s.fault_budget = 1;
     s.select_starts = vec![1, 3];
     s.oracles = o.clone();
